@@ -16,9 +16,31 @@ from astutil import GEN_DIR, TranslationError, find_class, find_method, parse, w
 REL = "secsgem/common/tcp_connection.py"
 
 
+SOCK = [None]      # the local name bound to self._socket in front of the loop, if any
+
+
 def is_socket_send(node):
-    return (isinstance(node, ast.Call) and isinstance(node.func, ast.Attribute) and node.func.attr == "send" and isinstance(node.func.value, ast.Attribute)
-            and node.func.value.attr == "_socket" and len(node.args) == 1 and isinstance(node.args[0], ast.Name))
+    if not (isinstance(node, ast.Call) and isinstance(node.func, ast.Attribute) and node.func.attr == "send" and len(node.args) == 1 and isinstance(node.args[0], ast.Name)):
+        return False
+    obj = node.func.value
+    return (isinstance(obj, ast.Attribute) and obj.attr == "_socket") or (isinstance(obj, ast.Name) and obj.id == SOCK[0])
+
+
+def one_socket(fn, loop):
+    """`sock = self._socket` in front of the loop and no other look at self._socket: every part of a message is offered to the same socket"""
+    SOCK[0] = None
+    pre = fn.body[: fn.body.index(loop)]
+    binds = [st for st in pre if isinstance(st, ast.Assign) and len(st.targets) == 1 and isinstance(st.targets[0], ast.Name) and isinstance(st.value, ast.Attribute)
+             and st.value.attr == "_socket" and isinstance(st.value.value, ast.Name) and st.value.value.id == "self"]
+    reads = [n for n in ast.walk(fn) if isinstance(n, ast.Attribute) and n.attr == "_socket"]
+    if len(binds) == 1 and len(reads) == 1:
+        SOCK[0] = binds[0].targets[0].id
+        if any(isinstance(n, ast.Assign) and any(isinstance(t, ast.Name) and t.id == SOCK[0] for t in n.targets) for n in ast.walk(loop)):
+            raise TranslationError(f"{REL}: send_data: the socket variable is assigned inside the loop")
+        return True
+    if binds:
+        raise TranslationError(f"{REL}: send_data: self._socket is bound to a local and read again")
+    return False
 
 
 def generate() -> str:
@@ -30,6 +52,7 @@ def generate() -> str:
     if len(loops) != 1:
         raise TranslationError(f"{REL}: send_data: one top-level while loop expected")
     loop = loops[0]
+    single = one_socket(fn, loop)
     last = fn.body[-1]
     if not (isinstance(last, ast.Return) and isinstance(last.value, ast.Constant) and last.value.value is True):
         raise TranslationError(f"{REL}: send_data: final 'return True' expected")
@@ -87,7 +110,9 @@ def generate() -> str:
                                                          and isinstance(s.value, ast.Constant) and s.value.value is False for s in tr.body)):
             raise TranslationError(f"{REL}: send_data: loop shape not recognised")
     return "\n".join(["(* GENERATED by harness/gen_send.py from TcpConnection.send_data — do not edit. *)", "From SG Require Import Base.Prelude.", "",
-                      f"Definition send_advances : bool := {'true' if advances else 'false'}.", ""])
+                      f"Definition send_advances : bool := {'true' if advances else 'false'}.",
+                      "(* the socket is looked up once per message: every part is offered to the connection the message was started on *)",
+                      f"Definition send_on_one_socket : bool := {'true' if single else 'false'}.", ""])
 
 
 if __name__ == "__main__":
